@@ -71,7 +71,15 @@ func (e *Enc) Encode() (err error) {
 	}
 	for _, li := range e.loops {
 		if li.lc == nil {
-			return fmt.Errorf("outside-subset: loop %d of %s has no invariant", li.ord, funcName(fn))
+			if e.fc == nil {
+				return fmt.Errorf("outside-subset: loop %d of %s has no invariant", li.ord, funcName(fn))
+			}
+			// a loop the contract does not know (the function was rewritten): it gets the weakest loop contract
+			// (invariant true, everything the loop writes is havocked, no termination claim), so that whatever the
+			// function's own clauses still need from the loop shows up as their failure rather than as a tooling error
+			e.warn("loop %d of %s has no loop contract: invariant true assumed", li.ord, funcName(fn))
+			li.lc = &LoopC{}
+			li.unknown = true
 		}
 	}
 	// collect debug refs (source names of values)
